@@ -14,7 +14,8 @@ bind : 1. spec -> code (schedules): the quotient state graph of MultiCore (every
           the pool: per-process event sequences validated as a partial order by TraceMultiCore.tla (TLC searches
           for an interleaving that is a MultiCore behaviour ending in the captured stdout / exit status);
           (b) CLI runs of assemble / call / call-exact / call-pedigree: --cores {1,2,3,5}, permuted and subset
-          inputs, repeated runs, a failing locus at every position: summaries validated by the terminal
+          inputs, repeated runs, a failing locus at every position, records that span the same interval with
+          different ALT sets next to each other in one worker block and apart: summaries validated by the terminal
           predicates of MultiCore + cross-run equality of every record and of the header;
           (c) RNG / output fingerprints of repeated DenovoMCMC / CallingMCMC / PedigreeCallingMCMC fits validated
           by TraceReseed.tla.
@@ -321,6 +322,11 @@ BEDS = {
     # the repository's own four targets plus overlapping multi-SNV windows
     "wide": [("CHR1", 5, 25, "CHR1_05_25"), ("CHR1", 30, 50, "CHR1_30_50"), ("CHR2", 10, 30, "CHR2_10_30"), ("CHR3", 20, 40, "CHR3_20_40"),
              ("CHR1", 0, 12, "W1"), ("CHR1", 12, 30, "W2"), ("CHR2", 0, 18, "W3"), ("CHR2", 18, 30, "W4")],
+    # targets that share an interval.  For the call programs the records of one interval list different haplotype sets
+    # (CliInputs.twin_records), as the haplotype VCFs of two call sets concatenated, or a multi-allelic record split into
+    # several records, do: same CHROM / POS / REF length, different ALTs, hence different SNV positions
+    "twins": [("CHR1", 5, 25, "TA1"), ("CHR1", 5, 25, "TA2"), ("CHR1", 5, 25, "TA3"), ("CHR1", 30, 50, "TB1"), ("CHR2", 10, 30, "TC1"),
+              ("CHR2", 10, 30, "TC2"), ("CHR2", 10, 30, "TC3"), ("CHR1", 0, 30, "TD1"), ("CHR1", 0, 30, "TD2")],
 }
 MCMC = ["--mcmc-steps", "300", "--mcmc-burn", "100", "--mcmc-seed", "11"]
 CLI_BOOT = "from mchap.application.cli import main; main()"
@@ -463,6 +469,37 @@ class CliInputs:
         f[7] = ";".join(x for x in f[7].split(";") if x.split("=")[0] in ("END", "REFMASKED")) or "."
         return "\t".join(f)
 
+    @staticmethod
+    def snv_offsets(rec):
+        """offsets (in REF) at which the haplotypes of a record differ: the SNV positions the program reads base calls at"""
+        f = rec.split("\t")
+        alts = [] if f[4] == "." else f[4].split(",")
+        return tuple(i for i in range(len(f[3])) if any(a[i] != f[3][i] for a in alts))
+
+    def twin_records(self, loci, recs):
+        """haplotype records of a dataset in which several targets share an interval: the first record of an interval is kept
+        (the assembled haplotypes), the j-th further one lists, instead, the single-SNV haplotypes of the interval's known SNVs
+        except the j-th SNV (rotating).  The records of one interval then share CHROM, POS and REF and differ in ALT."""
+        byname = {r.split("\t")[2]: r for r in recs}
+        seen, out = {}, []
+        for c, s, e, name in loci:
+            rec = byname[name]
+            j = seen.get((c, s, e), 0)
+            seen[(c, s, e)] = j + 1
+            if j:
+                f = rec.split("\t")
+                ref, pos = f[3], int(f[1])
+                known = [(k[1] - pos, sorted(al)) for k, al in sorted(self.snvs.items()) if k[0] == c and pos <= k[1] < pos + len(ref)]
+                keep = [x for i, x in enumerate(known) if len(known) < 2 or i != (j - 1) % len(known)]
+                alts = [ref[:o] + a + ref[o + 1:] for o, al in keep for a in al if a != ref[o]]
+                f[4] = ",".join(alts) if alts else "."
+                f[7] = ";".join(x for x in f[7].split(";") if x.split("=")[0] == "END") or "."
+                if len(f) > 8:
+                    f[8:] = ["GT"] + ["."] * (len(f) - 9)
+                rec = "\t".join(f)
+            out.append(rec)
+        return out
+
     def hap_vcf(self, header, records, bad=None, wide=False):
         """haplotype VCF with the given records (in that order); bad = index of the record whose REF haplotype gets a
         base, at its first SNV position, that the alignments contradict"""
@@ -482,6 +519,7 @@ class CliInputs:
             recs[bad] = "\t".join(f)
         if wide:
             recs = [self.widen(r) for r in recs]
+        self.last_records = recs
         p = self.path("haps.vcf")
         with open(p, "w") as fh:
             fh.write("\n".join(header + recs) + "\n")
@@ -551,7 +589,8 @@ def summarize(run, gid_of, ncols):
             recs.append([g] + h2(ln))
         i += 1
     return {"grp": run["grp"], "cores": run["cores"], "nl": len(run["expect"]), "fail": run["fail"], "out": out,
-            "exit": 0 if run["rc"] == 0 else 1, "hung": 1 if run["hung"] else 0, "lines": recs, "hdr": hdr}
+            "exit": 0 if run["rc"] == 0 else 1, "hung": 1 if run["hung"] else 0, "lines": recs, "hdr": hdr,
+            **run.get("regime", {})}
 
 
 class Machinery(Exception):
@@ -594,6 +633,27 @@ def cli_collect(wd, quick, seed):
             raise Machinery("reference assemble run failed: %s" % r["stderr"][-1500:])
         lines, _ = split_vcf(r["stdout"])
         hap[ds] = ([ln for ln in lines if ln.startswith("#")], [ln for ln in lines if not ln.startswith("#")])
+    hap["twins"] = (hap["twins"][0], inp.twin_records(BEDS["twins"], hap["twins"][1]))
+    # interval / variant-set ids of the loci of a run (TraceMultiCore: SameIntervalNeighbours / SameIntervalApart)
+    ivl_id, vs_id = {}, {}
+    shared = {}
+    for ds, loci in BEDS.items():
+        cnt = collections.Counter(l[:3] for l in loci)
+        shared[ds] = sorted(ivl_id.setdefault(k, len(ivl_id) + 1) for k, n in cnt.items() if n > 1)
+
+    def regime(ds, order, records):
+        """records: the haplotype records given to a call program (None for assemble: the variants of a target are a
+        function of its interval)"""
+        loci = BEDS[ds]
+        ivl = [ivl_id.setdefault(loci[i][:3], len(ivl_id) + 1) for i in order]
+        if records is None:
+            vs = [vs_id.setdefault(("interval", loci[i][:3]), len(vs_id) + 1) for i in order]
+        else:
+            vs = [vs_id.setdefault((loci[i][:3], inp.snv_offsets(r)), len(vs_id) + 1) for i, r in zip(order, records)]
+        return {"ivl": ivl, "vs": vs, "shared": shared[ds]}
+
+    for r in stage1:
+        r["regime"] = regime(r["ds"], range(len(BEDS[r["ds"]])), None)
 
     # ---- plan ------------------------------------------------------------------------------------
     plan = []
@@ -616,7 +676,8 @@ def cli_collect(wd, quick, seed):
             if src is None:
                 return False
         plan.append({"prog": prog, "ds": ds, "grp": grp(prog, ds), "cores": cores, "expect": expect, "fail": fail, "what": what,
-                     "bad_kind": bad_kind, "args": prog_args(prog, inp, src) + ["--cores", str(cores)]})
+                     "bad_kind": bad_kind, "args": prog_args(prog, inp, src) + ["--cores", str(cores)],
+                     "regime": regime(ds, order, None if prog == "assemble" else inp.last_records)})
         return True
 
     for prog in progs:
@@ -628,6 +689,37 @@ def cli_collect(wd, quick, seed):
             rnd.shuffle(perm)
             sub = sorted(rnd.sample(ident, n // 2 + 1))
             sub2 = [i for i in perm if i % 2 == 0]
+            if ds == "twins":
+                # same-interval records next to each other in one block (file order, reversed, every --cores value splits the
+                # groups differently) against the same records with no same-interval record before them in their process
+                groups_ = collections.defaultdict(list)
+                for i, l in enumerate(loci):
+                    groups_[l[:3]].append(i)
+                depth = max(len(v) for v in groups_.values())
+                # round-robin over the intervals: no two records of one interval are neighbours
+                inter = [v[j] for j in range(depth) for v in groups_.values() if j < len(v)]
+                if prog == "assemble":
+                    add(prog, ds, 3, ident, what="cores")
+                    add(prog, ds, 2, rev, what="reversed")
+                else:
+                    add(prog, ds, 1, ident, what="reference")
+                    add(prog, ds, 3, ident, what="cores")
+                    add(prog, ds, 1, rev, what="reversed")
+                    add(prog, ds, 2, inter, what="permuted")
+                if not quick:
+                    # one record of every interval (the j-th of those that have one): each on its own
+                    for j in range(depth):
+                        add(prog, ds, 1 if j % 2 else 2, [v[j] for v in groups_.values() if j < len(v)], what="subset")
+                    add(prog, ds, 2, ident, what="cores")
+                    add(prog, ds, 5, ident, what="cores")
+                    add(prog, ds, 1, ident, what="repeat")
+                    add(prog, ds, 2, rev, what="reversed")
+                    add(prog, ds, 3, perm, what="permuted")
+                    add(prog, ds, 1, perm, what="permuted")
+                    add(prog, ds, 1, inter, what="permuted")
+                    add(prog, ds, 1, sub, what="subset")
+                    add(prog, ds, 2, sub2, what="permuted subset")
+                continue
             if quick and ds == "wide":
                 if prog in ("assemble", "call"):
                     if prog != "assemble":
@@ -719,6 +811,19 @@ def cli_validate(ck, data, lap):
                          "distinct_locus_lines": cons[0]["lines"], "groups": cons[0]["groups"],
                          "by_program": {p: sum(1 for r in allruns if r["prog"] == p) for p in progs},
                          "max_wall_s": round(max(r["wall"] for r in allruns), 1)})
+    # the regime "records that span the same interval but list different variants": measured by the trace spec from
+    # MultiCore's block split; every call program must have been run with such records next to each other in one process
+    # and with the same records apart (the deciding clause is LineIdenticalAcrossRuns)
+    reg = {p["regime"] - 1: p for p in t.printed if "regime" in p}
+    cover = {p: {"same_interval_neighbours": sum(1 for i, x in reg.items() if allruns[i]["prog"] == p and x["neighbours"]),
+                 "same_interval_apart": sum(1 for i, x in reg.items() if allruns[i]["prog"] == p and x["apart"]),
+                 "neighbours_across_cores": sorted({allruns[i]["cores"] for i, x in reg.items() if allruns[i]["prog"] == p and x["neighbours"]})}
+             for p in progs}
+    ck.note("cli_same_interval_records", cover)
+    for p in progs:
+        if p != "assemble" and not (cover[p]["same_interval_neighbours"] and cover[p]["same_interval_apart"]):
+            ck.machinery_failure("no run of %s with same-interval records of different variants next to each other / apart: %s" % (p, cover[p]))
+    ck.nontrivial += sum(1 for i, x in reg.items() if x["neighbours"] and i not in rejected)
     ex = next(r for r in allruns if r["fail"] and r["cores"] > 1)
     exs = docs[allruns.index(ex)]
     ck.sample({"kind": "CLI run summary", "program": ex["prog"], "cores": ex["cores"], "what": ex["what"], "fail_position": ex["fail"],
@@ -755,6 +860,26 @@ def cli_validate(ck, data, lap):
     c7["hdr"][0] = (c7["hdr"][0] + 1) % (1 << 28)
     want.append("HeaderIdenticalAcrossRuns")
     cor += [c1, c2, c3, c4, c5, c6, c7]
+    # a record that follows a same-interval record of different variants in its block and is not the line that locus has
+    # in the group's reference run (what a result carried over from the previous locus looks like)
+    tw = [i for i, x in reg.items() if x["neighbours"] and i not in rejected and docs[i]["exit"] == 0
+          and docs[i] is not next(d for d in docs if d["grp"] == docs[i]["grp"])]
+    n8 = 0
+    if tw:
+        d8 = docs[tw[0]]
+        c8 = json.loads(json.dumps(d8))
+        nl8, c8n = d8["nl"], d8["cores"]
+        sizes = [nl8 // c8n + (1 if w < nl8 % c8n else 0) for w in range(c8n)]  # numpy.array_split, as MultiCore!GoodBlock
+        blocks = [list(range(sum(sizes[:w]) + 1, sum(sizes[:w + 1]) + 1)) for w in range(c8n)]
+        k8 = next(b[i + 1] for b in blocks for i in range(len(b) - 1)
+                  if d8["ivl"][b[i] - 1] == d8["ivl"][b[i + 1] - 1] and d8["vs"][b[i] - 1] != d8["vs"][b[i + 1] - 1])
+        g8 = allruns[tw[0]]["expect"][k8 - 1]
+        ln8 = next(x for x in c8["lines"] if x[0] == g8)
+        ln8[1] = (ln8[1] + 1) % (1 << 28)
+        cor += [next(d for d in docs if d["grp"] == d8["grp"]), c8]
+        n8 = len(cor)
+    elif not ck.violations:
+        ck.machinery_failure("no accepted CLI run with same-interval neighbours to corrupt")
     tfc = os.path.join(ck.wd, "trace-summaries-corrupt.json")
     with open(tfc, "w") as fh:
         json.dump({"kind": "summaries", "runs": cor}, fh)
@@ -762,7 +887,11 @@ def cli_validate(ck, data, lap):
     got = {p["reject"]: p["clause"] for p in t2.printed if "reject" in p}
     if [got.get(i + 2) for i in range(len(want))] != want or 1 in got:
         ck.machinery_failure("corrupted CLI summaries not rejected as expected: %s (wanted %s)" % (got, want))
-    ck.bump("corrupted_traces_rejected", len(want))
+    if n8:
+        reg2 = {p["regime"]: p for p in t2.printed if "regime" in p}
+        if got.get(n8) != "LineIdenticalAcrossRuns" or (n8 - 1) in got or not reg2.get(n8, {}).get("neighbours"):
+            ck.machinery_failure("corrupted same-interval record not rejected as expected: %s / %s" % (got, reg2.get(n8)))
+    ck.bump("corrupted_traces_rejected", len(want) + (1 if n8 else 0))
     lap("cli-validate")
 
 
@@ -967,8 +1096,11 @@ def main():
         "1..MaxC incl. cores > loci, no failure / call_locus failing at any one locus / loci() failing, single-core path and "
         "multi-core path) and dumps the state graph; behaviours covering every transition, every maximal behaviour of the "
         "small configurations and simulated behaviours of larger instances are replayed into the real orchestration code "
-        "under a lock-step multiprocessing fake. Non-trivial = replayed behaviour / recorded run / CLI run with a failing "
-        "locus, and Reseed histories in which a fit is preceded by other RNG consumption."
+        "under a lock-step multiprocessing fake. CLI runs include haplotype files whose records span the same interval with "
+        "different ALT sets (targets sharing an interval for assemble), next to each other in one worker block and apart "
+        "(TraceMultiCore SameIntervalNeighbours / SameIntervalApart over MultiCore's block split). Non-trivial = replayed "
+        "behaviour / recorded run / CLI run with a failing locus or with same-interval records of different variants handled "
+        "consecutively by one process, and Reseed histories in which a fit is preceded by other RNG consumption."
     )
     tier = "quick" if quick else "thorough"
     phase = {}
